@@ -5,8 +5,11 @@ import (
 	"encoding/json"
 	"fmt"
 	"math/big"
+	"os"
 	"sort"
 	"time"
+
+	"github.com/btcsuite/btcd/wire"
 
 	abci "github.com/cometbft/cometbft/abci/types"
 	"github.com/ethereum/go-ethereum/core/types/goattypes"
@@ -192,9 +195,21 @@ func c06Account(l *ledger, parent *c06Pre, child *enga.World, res *enga.Result) 
 				}
 			case *bitcointypes.MsgFinalizeWithdrawal:
 				pb := parent.batches[m.Pid]
+				// the amount reported for an id is the matching output of the transaction that was
+				// actually proven: the original (90000) or a fee-bumped replacement (89000)
+				paid := new(wire.MsgTx)
+				for _, cand := range parent.cands[m.Pid] {
+					if bytes.Equal(sim.DSHA(cand), m.Txid) {
+						must(paid.DeserializeNoWitness(bytes.NewReader(cand)))
+					}
+				}
 				for i, id := range pb {
 					l.terminal(id, "paid")
-					l.owe("withdrawal", fmt.Sprintf("paid:%d:%x:%d:%s", id, m.Txid, i, wei(90000)))
+					v := int64(-1) // a transaction that was never voted for this batch
+					if i < len(paid.TxOut) {
+						v = paid.TxOut[i].Value
+					}
+					l.owe("withdrawal", fmt.Sprintf("paid:%d:%x:%d:%s", id, m.Txid, i, wei(v)))
 				}
 			case *bitcointypes.MsgApproveCancellation:
 				for _, id := range m.Id {
@@ -270,6 +285,7 @@ func c06Account(l *ledger, parent *c06Pre, child *enga.World, res *enga.Result) 
 type c06Pre struct {
 	head    enga.HeadInfo
 	batches map[uint64][]uint64
+	cands   map[uint64][][]byte // batch -> voted candidate transactions (original, then fee bumps)
 	nextWid uint64
 	nextReq uint64
 	dump    string
@@ -413,9 +429,10 @@ func runC06(r *mc.Run) {
 		t := &enga.Tree{Run: r, Depth: depth,
 			Menu: func(w *enga.World, path []enga.ABlock) []enga.ABlock { return menu },
 			Pre: func(w *enga.World) any {
-				p := &c06Pre{head: w.Head(), batches: map[uint64][]uint64{}, nextWid: w.Bot.NextWid, nextReq: w.Bot.NextReq}
+				p := &c06Pre{head: w.Head(), batches: map[uint64][]uint64{}, cands: map[uint64][][]byte{}, nextWid: w.Bot.NextWid, nextReq: w.Bot.NextReq}
 				for pid, b := range w.Bot.Batches {
 					p.batches[pid] = append([]uint64{}, b.IDs...)
+					p.cands[pid] = append([][]byte{}, b.Txs...)
 				}
 				return p
 			},
@@ -507,6 +524,13 @@ func runC06(r *mc.Run) {
 		r.Sample(map[string]any{"history": aPath([]enga.ABlock{menu[2], menu[5], menu[10]}), "mutations_per_node": 9})
 	}
 	treeRecheck(r, explore)
+	if js := os.Getenv("VERIF_C06_ONLY"); js != "" {
+		// re-execute one recorded history only (used when classifying an alarm)
+		var only []enga.ABlock
+		must(json.Unmarshal([]byte(js), &only))
+		explore(r, only)
+		return
+	}
 	explore(r, nil)
 }
 
